@@ -47,12 +47,27 @@ GROUPS["C06"] = [
     dict(file=MLD, name="MemoryLeakDetector::addMemoryCorruptionInformation", coq="src_addGuard", global_arrays=["GuardBytes"]),
     dict(file=MLD, name="MemoryLeakDetector::validMemoryCorruptionInformation", coq="src_validGuard", global_arrays=["GuardBytes"]),
 ]
+UT = "src/CppUTest/Utest.cpp"
+_C03C = {"countCheck": {"event": "ACount"}, "getTestResult": "0", "failWith": {"fail_ctor": True},
+         "StrCmp": {"fn": "src_StrCmp"}, "StrNCmp": {"fn": "src_StrNCmp"}, "MemCmp": {"fn": "src_MemCmp"},
+         "equalsNoCase": {"cstr_op": "eq_nocase_at mem {0} {1}"}, "contains": {"cstr_op": "contains_at mem {0} {1}"},
+         "containsNoCase": {"cstr_op": "contains_nocase_at mem {0} {1}"}}
+GROUPS["C03"] = [dict(file=UT, name="UtestShell::" + n, coq="src_" + n, calls=_C03C, ghosts=[["evs", "list aev"]]) for n in
+                 ["assertTrue", "fail", "assertCstrEqual", "assertCstrNEqual", "assertCstrNoCaseEqual", "assertCstrContains",
+                  "assertCstrNoCaseContains", "assertLongsEqual", "assertUnsignedLongsEqual", "assertLongLongsEqual",
+                  "assertUnsignedLongLongsEqual", "assertSignedBytesEqual", "assertPointersEqual", "assertFunctionPointersEqual",
+                  "assertBinaryEqual", "assertBitsEqual", "assertEquals", "assertCompare"]]
 TC = "src/CppUTest/TeamCityTestOutput.cpp"
 GROUPS["C20"] = [
     dict(file=TC, name="TeamCityTestOutput::printEscaped", coq="src_printEscaped", ghosts=[["out", "list N"]],
          calls={"printBuffer": {"ghost": "out", "update": "emit mem {0} out"}}),
 ]
 HEADERS = {
+    "C03": "From Coq Require Import String.\nFrom CppUVerif Require Import lib.CSem lib.CMem lib.CEmit gen.Gen_LeafC13 gen.Gen_LoopC13.\nLocal Open Scope Z_scope.\n"
+           "(* translated by tools/cxx2gal.py: the assert entry points of UtestShell; countCheck() is the ghost event ACount, "
+           "failWith(XFailure(this, file, line, ...), terminator) the ghost event AFail \"XFailure\" file line after which the function is left "
+           "(the terminator exits the test); StrCmp / StrNCmp / MemCmp are the translated functions of gen/Gen_LoopC13.v; the three "
+           "operations on temporary SimpleString objects are replaced by their textbook meaning (lib/CEmit.v) *)\n",
     "C20": "From CppUVerif Require Import lib.CSem lib.CMem lib.CEmit.\nLocal Open Scope Z_scope.\n"
            "(* translated by tools/cxx2gal.py; the text handed to printBuffer is appended to the ghost variable out (emit), the local "
            "array str[3] is a fresh block *)\n",
